@@ -9,6 +9,7 @@
    wanted items and the test is the subset test Contain().  One action per public call. *)
 EXTENDS Integers, Sequences, FiniteSets, TLC
 CONSTANTS BloomIds,       \* e.g. two receipt blooms and a block bloom
+          Block,          \* the bloom of the block; the others are the blooms of its receipts
           AddrIds, ValIds,\* abstract addresses / indexed values ("e" is concretized as the empty byte string)
           MaxPos,         \* indexed positions 0..MaxPos
           Kinds,          \* serialization round trips: "compress", "bytes", "logbytes", "json", "rlp"
@@ -57,6 +58,13 @@ Merge(b, b2) ==                                         \* b.Merge(b2)
   /\ bits' = [bits EXCEPT ![b] = @ \cup bits[b2]]
   /\ added' = [added EXCEPT ![b] = @ \cup added[b2]]
   /\ Log(Rec("merge", b, b2, "", <<>>, NoItem, "", TRUE))
+\* the bloom of a block: the receipts are finalized (SetResult), stored in the receipt list, read back, and the
+\* bloom of every stored receipt is merged into the block's bloom (transition.go: t.logsBloom.Merge(r.LogsBloom()))
+Collect ==
+  LET rs == BloomIds \ {Block} IN
+  /\ bits' = [bits EXCEPT ![Block] = @ \cup UNION {bits[r] : r \in rs}]
+  /\ added' = [added EXCEPT ![Block] = @ \cup UNION {added[r] : r \in rs}]
+  /\ Log(Rec("collect", Block, "", "", <<>>, NoItem, "", TRUE))
 MergeNil(b) ==                                          \* b.Merge(nil)
   /\ UNCHANGED <<bits, added>>
   /\ Log(Rec("mergenil", b, "", "", <<>>, NoItem, "", TRUE))
@@ -78,6 +86,7 @@ Can == Len(hist) < MaxOps
 Next == \/ Can /\ \E b \in BloomIds, a \in AddrIds, vs \in Logs : AddLog(b, a, vs)
         \/ Can /\ \E b \in BloomIds, i \in Items : AddItem(b, i)
         \/ Can /\ \E b, b2 \in BloomIds : Merge(b, b2)
+        \/ Can /\ Collect
         \/ Can /\ \E b \in BloomIds : MergeNil(b)
         \/ Can /\ \E b \in BloomIds, k \in Kinds : Roundtrip(b, k)
         \/ Can /\ \E b, b2 \in BloomIds : Contain(b, b2)
@@ -103,5 +112,8 @@ QueriesSound ==
 MergeKeeps ==
   [][(Stepped /\ Last.op = "merge") =>
        (added'[Last.b] = added[Last.b] \cup added[Last.b2] /\ \A x \in BloomIds \ {Last.b} : bits'[x] = bits[x])]_vars
+\* the block's bloom covers everything any of its receipts logged
+CollectCovers ==
+  [][(Stepped /\ Last.op = "collect") => \A r \in BloomIds : added[r] \subseteq added'[Block] /\ BitsOfAll(added[r]) \subseteq bits'[Block]]_vars
 Monotone == [][\A b \in BloomIds : bits[b] \subseteq bits'[b]]_vars
 =============================================================================
